@@ -36,7 +36,7 @@ pub fn merge_summary(ctx: &Ctx, path: &str) {
                 let frames = leg["distinct_reports"].as_array().cloned().unwrap_or_default();
                 let first = frames.first().and_then(|f| f.as_str()).unwrap_or("unknown-frame").to_string();
                 st.violation(Violation {
-                    kind: "c09.sanitizer".into(),
+                    kind: "sanitizer".into(),
                     signature: format!("sanitizer:{}:{}", name, first),
                     case: json!({"leg": name, "how_to_rerun": leg["command"]}),
                     detail: json!({"reports": reports, "distinct_reports": frames, "log": leg["log"]}),
